@@ -520,7 +520,11 @@ class PipeOps(FullOps):
                     out = out.but(layout=tuple((l[0] + 1, l[1], l[2]) for l in out.layout), axes=("K",) + tuple(out.axes))
                 elif pos == 0 and full_rest and self.const_int(iv) is not None:
                     # t[c]: the first axis disappears, the layouts of the others move down
-                    out = out.but(layout=tuple((l[0] - 1, l[1], l[2]) for l in out.layout if l[0] > 0), axes=out.axes[1:] if len(out.axes) > 1 else (Q,))
+                    sp_ = self.rows_of(t)
+                    c_ = self.const_int(iv)
+                    rows_ = self.span_rows(sp_) if sp_ is not None else None
+                    out = out.but(layout=tuple((l[0] - 1, l[1], l[2]) for l in out.layout if l[0] > 0), axes=out.axes[1:] if len(out.axes) > 1 else (Q,),
+                                  rowspan=(self.span_norm([rows_[c_]]) if rows_ is not None and -len(rows_) <= c_ < len(rows_) else ("?" if self.inst is not None else None)))
                 else:
                     out = out.but(layout=())
         return out
@@ -609,7 +613,8 @@ class PipeOps(FullOps):
                 lay = tuple((l[0] - 1, l[1], l[2]) for l in lay if l[0] > 0)
                 axes = t.axes[1:] if len(t.axes) > 1 else (Q,)
             self.pev("axis_shift", node, how=name, dim=d)
-            return t.but(layout=lay, axes=axes)
+            sp_ = self.rows_of(t) if (self.inst is not None and t.rowspan is None and name == "squeeze" and d == 0) else t.rowspan
+            return t.but(layout=lay, axes=axes, rowspan=sp_)  # (instance runs: the single row carried stays known after the axis is gone)
         if name == "diag":
             lay = tuple((ax, l[1], l[2]) for l in t.layout if l[0] == 0 for ax in (0, 1))
             self.pev("diag", node, layout=[repr(l) for l in t.layout])
@@ -869,10 +874,10 @@ class PipeOps(FullOps):
         for a in args:
             if isinstance(a, ListV):
                 e = a.elem if a.items is None else None
-                strip = lambda t: t.but(axes=t.axes[1:] if len(t.axes) > 1 else (Q,)) if isinstance(t, TV) else t
+                strip = lambda t: t.but(axes=t.axes[1:] if len(t.axes) > 1 else (Q,), rowspan=(self.rows_of(t) if (self.inst is not None and t.rowspan is None) else t.rowspan)) if isinstance(t, TV) else t
                 new_args.append(replace(a, elem=strip(e)) if a.items is None else replace(a, items=tuple(strip(x) for x in a.items)))
             elif isinstance(a, TV):
-                new_args.append(a.but(axes=a.axes[1:] if len(a.axes) > 1 else (Q,)))
+                new_args.append(a.but(axes=a.axes[1:] if len(a.axes) > 1 else (Q,), rowspan=(self.rows_of(a) if (self.inst is not None and a.rowspan is None) else a.rowspan)))
             else:
                 new_args.append(a)
         self.in_vmap = getattr(self, "in_vmap", 0) + 1
